@@ -136,8 +136,24 @@ def forbidden_hits():
     return hits
 
 
+def prop_modules(prop):
+    """the Lean modules that hold the theorems of a property: Props/<prop>.lean and, when it exists,
+    Props/<prop>Tie.lean (source-derived ties kept in a file of their own, DESIGN.md 0.7.4)"""
+    mods = ["SockModel.Props.%s" % prop]
+    if os.path.exists(os.path.join(LEAN, "SockModel", "Props", prop + "Tie.lean")):
+        mods.append("SockModel.Props.%sTie" % prop)
+    return mods
+
+
 def prop_theorems(prop):
-    """names (fully qualified) of the theorems in Props/<prop>.lean"""
+    """names (fully qualified) of the theorems in Props/<prop>.lean (and Props/<prop>Tie.lean)"""
+    names = _file_theorems(prop)
+    if os.path.exists(os.path.join(LEAN, "SockModel", "Props", prop + "Tie.lean")):
+        names += _file_theorems(prop + "Tie")
+    return names
+
+
+def _file_theorems(prop):
     path = os.path.join(LEAN, "SockModel", "Props", prop + ".lean")
     code = strip_comments(open(path).read())
     names = []
@@ -159,7 +175,8 @@ def broken_theorems(prop, out):
     """names of the theorems that enclose the error positions of a lake output: those of Props/<prop>.lean, and
     (qualified `Cyy:name`) those of another Props file it imports (C01 imports the tie of `Wait` from C16)"""
     names = []
-    for f in sorted({m.group(1) for m in re.finditer(r"error: \S*Props/(C\d+)\.lean:\d+:\d+", out)}, key=lambda x: (x != prop, x)):
+    for f in sorted({m.group(1) for m in re.finditer(r"error: \S*Props/(C\d+(?:Tie)?)\.lean:\d+:\d+", out)},
+                    key=lambda x: (x not in (prop, prop + "Tie"), x)):
         path = os.path.join(LEAN, "SockModel", "Props", f + ".lean")
         try:
             lines = strip_comments(open(path).read()).split("\n")
@@ -177,7 +194,7 @@ def broken_theorems(prop, out):
                 if i <= ln:
                     cur = (kind, name)
             if cur and cur[0] == "theorem":
-                nm = cur[1] if f == prop else "%s:%s" % (f, cur[1])
+                nm = cur[1] if f in (prop, prop + "Tie") else "%s:%s" % (f, cur[1])
                 if nm not in names:
                     names.append(nm)
     return names
@@ -190,7 +207,7 @@ def lean_audit(prop):
     A problem text starting with "lake build failed" means the driver executable itself does not build;
     when only Props/<prop>.lean is broken (e.g. a tie theorem against Generated/Funcs.lean) the problem
     names the broken theorems and the caller can go on to run the implementation."""
-    ok, out = lean_build(["SockModel.Props.%s" % prop, "sockmodel"])
+    ok, out = lean_build(prop_modules(prop) + ["sockmodel"])
     res = dict(ok=False, obligations=0, discharged=0, theorems=[], problems=[], axioms={})
     names = prop_theorems(prop)
     res["theorems"] = names
@@ -214,7 +231,8 @@ def lean_audit(prop):
         res["problems"].append("forbidden constructs: " + "; ".join(hits[:10]))
     audit = os.path.join(LEAN, "Audit_%s_%d.lean" % (prop, os.getpid()))
     with open(audit, "w") as f:
-        f.write("import SockModel.Props.%s\n" % prop)
+        for m in prop_modules(prop):
+            f.write("import %s\n" % m)
         for n in names:
             f.write("#print axioms %s\n" % n)
     try:
@@ -247,7 +265,7 @@ def lean_audit(prop):
 
 
 def leanchecker(prop):
-    r = sh(["lake", "env", "leanchecker", "SockModel.Props.%s" % prop], cwd=LEAN)
+    r = sh(["lake", "env", "leanchecker"] + prop_modules(prop), cwd=LEAN)
     return r.returncode == 0, r.stdout[-2000:]
 
 
